@@ -146,9 +146,12 @@ def run_random_case(ctx, kind_, idx):
                 if knife:
                     ctx.discard("ratio_bound_within_rounding_of_a_sample")
                     return
-                xin, _k = gen.as_container(rng, x, allow=("array", "list", "int", "strided", "readonly", "tuple"))
-                yin, _k2 = gen.as_container(rng, y, allow=("array", "list", "int", "strided", "readonly", "tuple"))
-                info.update({"left": l, "right": r, "ratios": [lr, rr]})
+                # pandas columns with a non-positional index only with absolute bounds (a ratio needs x[-1], a label
+                # look-up that no Series supports; no property speaks about that)
+                kinds = ("array", "list", "int", "strided", "readonly", "tuple") + (() if (lr or rr) else ("series",))
+                xin, _k = gen.as_container(rng, x, allow=kinds)
+                yin, _k2 = gen.as_container(rng, y, allow=kinds)
+                info.update({"left": l, "right": r, "ratios": [lr, rr], "containers": [_k, _k2]})
                 gx, gy = truncate(xin, yin, l, r) if not (lr or rr) and rng.integers(0, 2) else \
                     callform.call(rng, truncate, "process.truncate", [xin, yin, l, r],
                                   {"x_left_as_ratio": lr, "x_right_as_ratio": rr}, p_pos=0.5)
@@ -256,6 +259,8 @@ def run_random_case(ctx, kind_, idx):
                 n = len(x)
                 start = int(rng.integers(0, n + 1))
                 stop = None if rng.integers(0, 4) == 0 else int(rng.integers(0, n + 1))
+                if stop is not None and rng.integers(0, 4) == 0:
+                    stop = -int(rng.integers(1, n + 1))         # Python slice semantics: counted from the end
                 st = int(rng.integers(1, 5))
                 info.update({"start": start, "stop": stop, "step": st})
                 if rng.integers(0, 6) == 0:
